@@ -36,3 +36,6 @@ package types
 //@   ensures found: result1 == inmap(rtr.routes, module)
 //@   ensures value: result1 ==> result0 == rtr.routes[module]
 //@   ensures none: !result1 ==> isNil(result0)
+
+//@ contract interface ICS4Wrapper.GetAppVersion
+//@   ensures world(ctx) == old(world(ctx))
